@@ -47,6 +47,7 @@ pub struct EvInfo {
     pub ts: u64,
     pub msg: Option<(u64, EventId)>,
     pub ckind: String,
+    pub refs: Vec<u64>,     // commit: proposal events it commits by reference
 }
 
 pub struct World<S: MdkStorageProvider> {
@@ -186,7 +187,7 @@ impl<S: MdkStorageProvider> World<S> {
                     Ok(Ok(u)) => {
                         self.register_pending(m, ev);
                         let key = id_order_key(&u.evolution_event.id);
-                        self.events.insert(ev, EvInfo { event: u.evolution_event, kind: "commit".into(), author: m, state: st.parse().unwrap_or(9999), epoch: ep, ts, msg: None, ckind: kind.into() });
+                        self.events.insert(ev, EvInfo { event: u.evolution_event, kind: "commit".into(), author: m, state: st.parse().unwrap_or(9999), epoch: ep, ts, msg: None, ckind: kind.into(), refs: swept.iter().filter_map(|x| self.leave_ev.get(x)).cloned().collect() });
                         let removes = if swept.is_empty() { "-".to_string() } else { swept.iter().map(|x| x.to_string()).collect::<Vec<_>>().join(",") };
                         let refs: Vec<String> = swept.iter().filter_map(|x| self.leave_ev.get(x)).map(|e| e.to_string()).collect();
                         let refs = if refs.is_empty() { "-".to_string() } else { refs.join(",") };
@@ -220,7 +221,7 @@ impl<S: MdkStorageProvider> World<S> {
                 match r {
                     Ok(Ok(e)) => {
                         self.msg_ids.insert(rid, msg);
-                        self.events.insert(ev, EvInfo { event: e, kind: "app".into(), author: m, state: st.parse().unwrap_or(9999), epoch: ep, ts, msg: Some((msg, rid)), ckind: String::new() });
+                        self.events.insert(ev, EvInfo { event: e, kind: "app".into(), author: m, state: st.parse().unwrap_or(9999), epoch: ep, ts, msg: Some((msg, rid)), ckind: String::new(), refs: vec![] });
                         (format!("{} | author={m} state={st} epoch={ep}", t.join(" ")), self.fingerprint(m, "ok", None, Some(ev)))
                     }
                     Ok(Err(_)) => (format!("{} | refused=1", t.join(" ")), self.fingerprint(m, "Err", None, None)),
@@ -237,7 +238,7 @@ impl<S: MdkStorageProvider> World<S> {
                     Ok(Ok(u)) => {
                         self.leave_ev.insert(m, ev);
                         let key = id_order_key(&u.evolution_event.id);
-                        self.events.insert(ev, EvInfo { event: u.evolution_event, kind: "prop".into(), author: m, state: st.parse().unwrap_or(9999), epoch: ep, ts, msg: None, ckind: "leave".into() });
+                        self.events.insert(ev, EvInfo { event: u.evolution_event, kind: "prop".into(), author: m, state: st.parse().unwrap_or(9999), epoch: ep, ts, msg: None, ckind: "leave".into(), refs: vec![] });
                         (format!("{} | author={m} state={st} epoch={ep} idkey={key}", t.join(" ")), self.fingerprint(m, "ok", None, Some(ev)))
                     }
                     Ok(Err(_)) => (format!("{} | refused=1", t.join(" ")), self.fingerprint(m, "Err", None, None)),
@@ -262,7 +263,7 @@ impl<S: MdkStorageProvider> World<S> {
                 };
                 let e = b.custom_created_at(created).sign_with_keys(&keys).unwrap();
                 let model_cls = match cls { 0 | 4 => 0, 1 => 1, 2 => 2, _ => 3 };
-                self.events.insert(ev, EvInfo { event: e, kind: "bad".into(), author: 99, state: 9999, epoch: 0, ts, msg: None, ckind: format!("bad{cls}") });
+                self.events.insert(ev, EvInfo { event: e, kind: "bad".into(), author: 99, state: 9999, epoch: 0, ts, msg: None, ckind: format!("bad{cls}"), refs: vec![] });
                 (format!("{} | bad={model_cls}", t.join(" ")), "ok".into())
             }
             "DELIVER" => {
@@ -281,7 +282,7 @@ impl<S: MdkStorageProvider> World<S> {
                             self.register_pending(m, aev);
                             let st = self.sigma_of(m, None); let ep = self.mls_epoch(m);
                             let key = id_order_key(&u.evolution_event.id);
-                            self.events.insert(aev, EvInfo { event: u.evolution_event.clone(), kind: "commit".into(), author: m, state: st.parse().unwrap_or(9999), epoch: ep, ts: ats, msg: None, ckind: "auto".into() });
+                            self.events.insert(aev, EvInfo { event: u.evolution_event.clone(), kind: "commit".into(), author: m, state: st.parse().unwrap_or(9999), epoch: ep, ts: ats, msg: None, ckind: "auto".into(), refs: vec![ev] });
                             line = format!("{line} | autoev={aev} autokey={key} autots={ats}");
                         }
                         let fresh = if info.kind == "commit" { Some(ev) } else { None };
